@@ -139,6 +139,10 @@ pub struct WriteSpec {
     /// (to `<scratch>/cwd/d<n>`) between the last chunk and the commit
     #[serde(default)]
     pub chdir_mid: Option<usize>,
+    /// streamed writes: while this writer is open, this many other writers are created and
+    /// dropped (or committed with one byte) on the same cache — a long-lived process
+    #[serde(default)]
+    pub churn: u32,
 }
 
 impl WriteSpec {
@@ -162,6 +166,7 @@ impl WriteSpec {
             aged_hours: 0,
             decoy_opts: false,
             chdir_mid: None,
+            churn: 0,
         }
     }
     pub fn streamed(&self) -> bool {
@@ -330,6 +335,9 @@ pub enum Op {
     /// harness-side: `<cache>/tmp` becomes a symlink to a directory on another filesystem (a
     /// legal layout in which the temp file cannot be renamed into the content area)
     TmpElsewhere,
+    /// every file in the cache gets a modification time `days` in the past (harness-side: the
+    /// cache has aged; nothing about the entries changes)
+    AgeCache { days: u32 },
     /// `remove_hash` with a two-hash integrity: the address of `addr` plus the hash of blob
     /// `also` under a weaker algorithm; only what the address resolves to may go
     RemoveHashMulti { addr: AddrRef, also: usize },
@@ -352,7 +360,7 @@ pub enum Op {
 
 impl Op {
     pub fn is_harness_side(&self) -> bool {
-        matches!(self, Op::DamageContent { .. } | Op::DamageBucket { .. } | Op::ForeignRecord { .. } | Op::Chdir { .. } | Op::PlantRecord { .. } | Op::TmpElsewhere | Op::RemoveTarget { .. } | Op::SwitchCache)
+        matches!(self, Op::DamageContent { .. } | Op::DamageBucket { .. } | Op::ForeignRecord { .. } | Op::Chdir { .. } | Op::PlantRecord { .. } | Op::TmpElsewhere | Op::RemoveTarget { .. } | Op::SwitchCache | Op::AgeCache { .. })
     }
     pub fn name(&self) -> &'static str {
         match self {
@@ -383,6 +391,7 @@ impl Op {
             Op::RemoveTarget { .. } => "remove_target",
             Op::RemoveHashMulti { .. } => "remove_hash",
             Op::SwitchCache => "switch_cache",
+            Op::AgeCache { .. } => "age_cache",
             Op::TwoWriters { .. } => "two_writers",
         }
     }
